@@ -22,16 +22,24 @@ def effectful_logic(prog):
 
 
 def effectful_args(prog):
+    """Two sibling sub-expressions (operands of one operator other than and/or, arguments of one call, elements of
+    one literal) both contain a call: the native backend leaves their order to the C compiler."""
     for e in prog_exprs(prog):
         if not e:
             continue
         args = None
-        if e[0] in ("call", "callv", "bi"):
+        if e[0] in ("call", "bi", "arr"):
             args = e[2]
-        elif e[0] == "arr":
-            args = e[2]
-        elif e[0] == "bin" and e[1] in ("+", "==", "!="):
+        elif e[0] == "callv":
+            args = [e[1]] + list(e[2])
+        elif e[0] == "bin" and e[1] not in ("and", "or"):
             args = [e[2], e[3]]
+        elif e[0] == "mk":
+            args = [x for _f, x in e[2]]
+        elif e[0] == "umk":
+            args = [x for _f, x in e[3]]
+        elif e[0] == "tup":
+            args = e[1]
         if args and sum(1 for a in args if has_call(a)) >= 2:
             return True
     return False
